@@ -21,7 +21,7 @@ RULE = (
     "cut, or a contig end within 3 texels of a cut); distinct by SHA-1 of the plain case."
 )
 ASSUMPTIONS = [
-    "input scaffolds neither start nor end with a gap; contig names unique or FASTA-shaped; names outside the generated namespaces",
+    "contig names unique or FASTA-shaped; names outside the generated namespaces; input scaffolds may start / end with a gap row in a ninth of the cases",
     "a piece's last base is min(piece end, scaffold length) (PretextView's ceil rounding may overshoot the scaffold)",
 ]
 
@@ -117,7 +117,8 @@ def body(case, rec):
 @st.composite
 def cases(draw, strands="mixed"):
     t = draw(gen.texel())
-    inp = draw(gen.input_assembly(t, strands=strands))
+    # a third of the cases: FASTA-derived inputs whose scaffolds may begin / end with a gap row (records with terminal N runs)
+    inp = draw(gen.input_assembly(t, strands=strands, terminal_gaps=draw(st.integers(0, 2)) == 0))
     m = draw(gen.model_map(inp, t))
     return {"t": gen.texel_str(t), "input": inp, "map": m, "prefix": "SUPER_"}
 
